@@ -1,4 +1,5 @@
 import PvModel.Props.C07
+import PvModel.Props.C07Rel
 #print axioms Pv.C07_fair
 #print axioms Pv.C07_branch
 #print axioms Pv.C07_program
@@ -6,3 +7,5 @@ import PvModel.Props.C07
 #print axioms Pv.C07_always
 #print axioms Pv.C07_run_split
 #print axioms Pv.C07_dfs_unfair_witness
+#print axioms Pv.C07_delivered_iff_bigstep
+#print axioms Pv.C07_rel_every_solution_delivered
